@@ -8,6 +8,34 @@ CHECKS = {
    technique='TLA+ product machine (budget N x unlimited) model-checked with TLC; TLC-generated scenarios replayed on the code; recorded traces validated by TLC (TraceVM)',
    text='TLC checks exhaustively, over all programs of spec/MC_C01.tla x all budgets 1..MaxN x propagating/swallowing hosts x 2-call histories, that the specified evaluator charges every node evaluation to the call in progress, raises exactly at the N-th operation with no effect, is identical to the unbounded run until then (monotone in N) and that the effects of the aborted run are a prefix. The code is bound to the specification in both directions: every explored scenario is replayed on the real SqParser, and recorded executions (boundary budgets need-1..need+2 of random programs, closures crossing eval calls) are validated event by event (node, VM record, op count, raised flag, values, names) by TLC.',
    note='Trusted: TLC, the external tracer (harness/vmtrace.py wraps Op.eval and the 13 subclass evals), the bounds of MC_C01. Unbounded programs are covered by trace validation of sampled runs only.'),
+ 'C09': dict(engine='vm', level='model_checking', design='4/C09',
+   technique='TLA+ evaluator model-checked with TLC over all probe-leaf expression shapes x outcome assignments (order invariants on the event history); replay of TLC scenarios on the code; TLC trace validation of recorded runs',
+   text='TLC checks on the specified evaluator, for all expression shapes up to depth 2 / 3-4 leaves over every construct that has operands, with a distinct host probe at each leaf and all assignments of probe outcomes (truthy, falsy, host list, raises), that and/or/if-else are lazy and yield the deciding operand, and that all other operands are evaluated exactly once, left to right, before the operation is applied (invariants over the recorded event history). The code is bound by replaying those scenarios and by validating recorded runs of deeper random probe programs (method/pipe sugar, slices, dict literals, index/compound/del statements) event by event, including the ordered probe log.',
+   note='Trusted: TLC, external tracer, probe functions of the harness; bounds MaxDepth/MaxLeaves of spec/MC_C09.tla.'),
+ 'C10': dict(engine='vm', level='model_checking', design='4/C10',
+   technique='TLA+ evaluator with explicit scope stacks model-checked with TLC (scope balance / frame correspondence / host written only at top level); replay + TLC trace validation incl. scope depth, host names and FUNCTIONS digest after every call',
+   text='TLC checks scope-stack invariants (balanced at every call end, one local scope per active lambda frame also when bodies raise under map/sorted/filter or under a swallowing host callback, host mapping written only by top-level stores, locals vanish) over 16k scenarios binding one name at every subset of builtin / host / parameter-local levels with host-supplied AST lambdas whose bodies assign, nested and recursive calls. Conformance: replay of the scenarios and of random scoping programs (including host mappings equal to a parameter binding and 2-call histories); the tracer compares scope depth per VM record, host names contents and a digest of FUNCTIONS after every call.',
+   note='Trusted: TLC, external tracer. Lambda bodies that assign exist only as host-supplied ASTs (ast_names).'),
+ 'C12': dict(engine='vm', level='model_checking', design='4/C12',
+   technique='TLA+ heap model with object identity; TLC checks Separation/HostOnlyDirect over all store forms x mutation sequences; replay + TLC trace validation comparing object identities up to a bijection',
+   text='TLC checks over 19k scenarios (6 nested host object shapes incl. tuples and shared substructure x 11 store forms x all sequences of <= 2 mutations through either side) that stored values never share a mutable object with their source or with another variable and that a host object changes only under a mutator applied directly to it. Conformance compares, for every node exit and the final names, contents and object identity (address bijection) between the real run and the specification, so an aliasing store is rejected at the store itself.',
+   note='Trusted: TLC, external tracer (first-seen numbering of id() with strong references).'),
+ 'C13': dict(engine='vm', level='model_checking', design='4/C13',
+   technique='TLA+ builtin semantics; TLC action property ArgsPreserved over every deterministic non-mutator x argument tuples and two-stage pipelines; replay + TLC trace validation of host objects after every call (relational envelope for shuffle/rand/match*)',
+   text='TLC checks that the step applying a non-mutating builtin, and every own step of map/filter/reduce/sorted, leaves every existing heap object unchanged, for every deterministic non-mutator of the table applied to every argument tuple from a universe of host lists/dicts/strings/numbers/flags/key functions and all two-stage pipelines (8970 programs). The programs and random further calls (including shuffle, rand, match*) are run on the real code and the host objects compared (contents and identity) with the specification after each call. The key set of FUNCTIONS is compared with the specification table and recorded.',
+   note='Trusted: TLC, external tracer. Builtins unknown to the specification would only be exercised relationally (reported in the evidence).'),
+ 'C06': dict(engine='lexparse', level='model_checking', design='4/C06',
+   technique='TLA+ lexer + normative precedence-climbing parser (SQGrammar.tla), model-checked against the declarative grammar-and-table reading; TLC enumerates all token strings up to a bound and every string is parsed by the real SqParser; TLC trace validation of recorded parses',
+   text='The reference parser is written in TLA+ from the productions and the operator table (not from the LALR tables) and is itself checked by TLC to be sound, complete and unique w.r.t. the declarative reading (thorough tier). TLC enumerates all token strings up to a length bound over 18 alphabet groups (hundreds of thousands), each is rendered to text and parsed by the real parser: accept/reject, tree and offending token must agree. Random deep sentences, their one-token mutations and the test-suite sources are parsed by the real code and validated by TLC.',
+   note='Trusted: TLC, tree conversion harness/treeconv.py. Bounds: string lengths per alphabet group.'),
+ 'C15': dict(engine='lexparse', level='model_checking', design='4/C15',
+   technique='TLA+ lexer/parser; TLC checks Parse(Lex(render(tree, layout))) = tree on enumerated token strings with layout variants and on recorded layout rewrites; every rendering parsed by the real parser',
+   text='Layout rewrites (spaces/tabs, comments, line breaks inside brackets, ; vs newline vs CRLF, blank statements, trailing commas, redundant parentheses, the three call spellings) are applied at every applicable position of enumerated token strings and of random trees; the specification requires the tree to be unchanged, the real parser is run on every rendering and must agree with the specification.',
+   note='Trusted: TLC, renderer in harness/lexparse.py (only inserts separators where tokens would fuse).'),
+ 'C20': dict(engine='lexparse', level='model_checking', design='4/C20',
+   technique='TLA+ lexer with physical line numbers and ErrMsg; TLC enumerates erroneous token strings with separators/brackets; recorded error messages validated by TLC',
+   text='The specification computes, for every rejected text, the offending token and its physical line (1 + line breaks strictly before it, independent of brackets and of ;). TLC enumerates token strings with every mixture of newline/CRLF/; separators and multi-line brackets before a stray token, plus truncations; the real ParserError message must name that token text and that line, and end of input must be reported as such.',
+   note='Trusted: TLC. The token text is compared as the lexer reports it (str(token.value)).'),
 }
 NA_REASON = 'check not built yet (construction in progress, see DESIGN.md section 8)'
 m = {"version": 1, "setup_cmd": "cd /verif && ./setup.sh",
@@ -15,7 +43,9 @@ m = {"version": 1, "setup_cmd": "cd /verif && ./setup.sh",
                "enable": "no source hooks: ./check sets SMARTQUERY_VERIF=1, snapshots /repo/smartquery to a scratch directory and instruments that copy from outside (harness/vmtrace.py)",
                "baseline_off_cmd": "cd /repo && /venv/bin/python -m pytest -ra -q -p no:cacheprovider --timeout=900 --continue-on-collection-errors",
                "source_commits": [], "add_only": True},
-     "engines": [{"name": "vm", "path": "spec/SQVM.tla + spec/TraceVM.tla + harness/", "serves_properties": sorted(k for k, c in CHECKS.items() if c['engine'] == 'vm'),
+     "engines": [{"name": "lexparse", "path": "spec/SQLexer.tla + spec/SQGrammar.tla + spec/TraceParse.tla + harness/lexparse.py", "serves_properties": sorted(k for k, c in CHECKS.items() if c['engine'] == 'lexparse'),
+                  "kind_free_text": "TLA+ lexer and normative parser, TLC enumeration of token/character strings replayed on the real lexer/parser, TLC validation of recorded parses"},
+                 {"name": "vm", "path": "spec/SQVM.tla + spec/TraceVM.tla + harness/", "serves_properties": sorted(k for k, c in CHECKS.items() if c['engine'] == 'vm'),
                   "kind_free_text": "TLA+ small-step abstract machine of the evaluator, model-checked by TLC; conformance by replay (spec->code) and trace validation (code->spec)"}],
      "checks": [], "not_applicable": [], "notes": "see DESIGN.md"}
 for p in props:
